@@ -2,7 +2,7 @@
    the implementation's f64 result must lie in the model's rigorous enclosure widened by the
    case's tolerance; decisions that the enclosure cannot settle are reported as ambiguous. *)
 From Coq Require Import ZArith List Bool.
-From A5 Require Import Num.NumOps Num.IvInst Geo.Authalic Geo.Sphere.
+From A5 Require Import Num.NumOps Num.IvInst Num.Derived Geo.Authalic Geo.Sphere Geo.Tiling Geo.Projection.
 From A5 Require Export Corr.Lit.
 Import ListNotations.
 Open Scope Z_scope.
@@ -15,7 +15,11 @@ Inductive gcase :=
 | GFromLonLat (lon lat theta phi tol : dyv)
 | GToLonLat (theta phi lon lat tol : dyv)
 | GHaversine (t p t2 p2 e tol : dyv)
-| GNearest (theta phi : dyv) (e : Z).
+| GNearest (theta phi : dyv) (e : Z)
+(* DodecahedronProjection::forward(theta, phi, origin) -> face point *)
+| GDodecFwd (theta phi : dyv) (origin : Z) (ex ey tol : dyv)
+(* DodecahedronProjection::inverse(x, y, origin) -> unit vector of the result *)
+| GDodecInv (x y : dyv) (origin : Z) (cx cy cz tol : dyv).
 
 (* verdict: 0 = agree, 1 = mismatch, 2 = ambiguous (enclosure straddles a decision) *)
 Definition gcheck (c : gcase) : Z :=
@@ -34,6 +38,18 @@ Definition gcheck (c : gcase) : Z :=
   | GNearest theta phi e =>
       match find_nearest_origin IvInst (D theta) (D phi) with
       | Some i => if i =? e then 0 else 1
+      | None => 2
+      end
+  | GDodecFwd theta phi origin ex ey tol =>
+      match dodec_forward IvInst (D theta) (D phi) origin with
+      | Some (x, y) => if iv_contains_dy x ex tol && iv_contains_dy y ey tol then 0 else 1
+      | None => 2
+      end
+  | GDodecInv x y origin cx cy cz tol =>
+      match dodec_inverse IvInst (D x, D y) origin with
+      | Some (t, p) =>
+          let '(vx, vy, vz) := to_cartesian IvInst t p in
+          if iv_contains_dy vx cx tol && iv_contains_dy vy cy tol && iv_contains_dy vz cz tol then 0 else 1
       | None => 2
       end
   end.
